@@ -525,6 +525,14 @@ func (p *Parser) parseSegmentedIdents() ([]string, error) {
 		if ch := p.peekRune(); ch == '/' {
 			// Next segment is a regex so we're done.
 			break
+		} else if ch == '$' {
+			// Next segment is a bound parameter. If it resolves to a regex
+			// we're done, exactly as for a literal regex.
+			tok, _, _ := p.Scan()
+			p.Unscan()
+			if tok == REGEX {
+				break
+			}
 		} else if ch == ':' {
 			// Next segment is context-specific so let caller handle it.
 			break
@@ -2862,38 +2870,42 @@ func (p *Parser) parseUnaryExpr() (Expr, error) {
 
 // parseRegex parses a regular expression.
 func (p *Parser) parseRegex() (*RegexLiteral, error) {
-	// The raw look-ahead below inspects the reader, which is only the next
-	// input when no token has been pushed back. With a buffered token (for
-	// instance the comma after a measurement name) that token comes next, so
-	// there is no regex here.
 	if p.s.n > 0 {
-		return nil, nil
-	}
-
-	// Skip whitespace and comments in front of a possible regex. Comments are
-	// recognised on the raw runes here because the probe below would
-	// otherwise take the slash of a block comment for the start of a regex.
-	for isWhitespace(p.peekRune()) || p.peekComment() {
-		if tok, _, _ := p.Scan(); tok != WS && tok != COMMENT {
-			// e.g. an unterminated block comment: let the caller report it.
-			p.Unscan()
-			return nil, nil
-		}
-	}
-
-	// If the next character is not a '/', then return nils.
-	nextRune := p.peekRune()
-	if nextRune == '$' {
-		// This might be a bound parameter and it might
-		// resolve to a regex.
+		// A token has been pushed back (for instance the comma after a
+		// measurement name), so it comes next and the raw look-ahead below
+		// would inspect the wrong place. Only a bound parameter that already
+		// resolved to a regex counts as one.
 		tok, _, _ := p.Scan()
 		p.Unscan()
 		if tok != REGEX {
-			// It was not a regular expression so return.
 			return nil, nil
 		}
-	} else if nextRune != '/' {
-		return nil, nil
+	} else {
+		// Skip whitespace and comments in front of a possible regex. Comments
+		// are recognised on the raw runes here because the probe below would
+		// otherwise take the slash of a block comment for the start of a regex.
+		for isWhitespace(p.peekRune()) || p.peekComment() {
+			if tok, _, _ := p.Scan(); tok != WS && tok != COMMENT {
+				// e.g. an unterminated block comment: let the caller report it.
+				p.Unscan()
+				return nil, nil
+			}
+		}
+
+		// If the next character is not a '/', then return nils.
+		nextRune := p.peekRune()
+		if nextRune == '$' {
+			// This might be a bound parameter and it might
+			// resolve to a regex.
+			tok, _, _ := p.Scan()
+			p.Unscan()
+			if tok != REGEX {
+				// It was not a regular expression so return.
+				return nil, nil
+			}
+		} else if nextRune != '/' {
+			return nil, nil
+		}
 	}
 
 	tok, pos, lit := p.ScanRegex()
